@@ -1,13 +1,13 @@
 \* C25 leg A quick: strings {"", "a", "ab"}; symbols slice: one tenant with <= 2 series or two tenants with <= 1
 \* series, label lists 0..1, optional exemplar without labels or (ExLabelMax) with one; payload slice: 324 histogram
-\* shapes x samples {0,2} x exemplars {0,1}
+\* shapes with 2 samples and 1 exemplar
 SPECIFICATION Spec
 CONSTANTS Strs3 <- StrsNone
           ExLabelMax = 0
           TwoSeries = TRUE
           Hints = {"0"}
-          SampleCounts = {0, 2}
-          ExemplarCounts = {0, 1}
+          SampleCounts = {2}
+          ExemplarCounts = {1}
 INVARIANTS TableDistinct VisitedInterned OffsetsWellFormed ResolutionInvertsInterning
            C25_Lossless C25_LosslessWithoutCustomValues StepsMatchFunctions
 PROPERTY Terminates
